@@ -44,6 +44,7 @@ static std::vector<Failure> g_failures;
 static std::map<std::string, KnownHit> g_known_hits;
 static std::vector<std::string> g_domains;
 static std::string g_phase = "?";
+static uint64_t g_enum_stride = 1, g_enum_phase = 0, g_enum_counter = 0;
 static std::map<std::string, uint64_t> g_digest;   // per (target/op): hash over the outputs of the deterministic phase
 static uint64_t g_max_failures = 12;
 
@@ -274,7 +275,7 @@ static bool account(const VpCase& c, bool allow_minimise = true) {
         }
         add_sample(c, o);
     }
-    if (g_phase == "enum") {
+    if (g_phase == "enum" && g_enum_stride == 1) {     // a thinned enumeration visits other Cases: no digest
         // digest of (inputs, actual outputs) for the cross-configuration differential
         uint64_t& d = g_digest[std::string(g_targets[c.target].name) + "/" + g_ops[c.op].name];
         uint64_t h = hash_case(c);
@@ -306,7 +307,6 @@ static bool account(const VpCase& c, bool allow_minimise = true) {
     return false;
 }
 
-static uint64_t g_enum_stride = 1, g_enum_phase = 0, g_enum_counter = 0;
 static void emit_cb(const VpCase* c, void*) { if (g_enum_stride > 1 && (g_enum_counter++ % g_enum_stride) != g_enum_phase) return; account(*c); }
 static std::string g_mode_name; static uint64_t g_seed_value;
 static void write_json(const std::string& path, const std::string& mode, uint64_t seed, double wall);
